@@ -21,3 +21,10 @@ func TestReplay(t *testing.T) {
 	a := New(t, c.Chain, c.Oracle, c.Bridger, c.Variant, c.MaxNonce, c.Stake)
 	graph.RunReplay(t, a, a.W.Ctx, nil)
 }
+
+func TestPath(t *testing.T) {
+	var c consts
+	graph.Const(&c)
+	a := New(t, c.Chain, c.Oracle, c.Bridger, c.Variant, c.MaxNonce, c.Stake)
+	graph.RunPath(t, a, a.W.Ctx)
+}
